@@ -10,6 +10,7 @@ import (
 	"fmt"
 	"math/big"
 	"math/rand"
+	"sort"
 
 	"github.com/osmosis-labs/osmosis/osmomath"
 )
@@ -317,8 +318,63 @@ func runNum(seed int64, n int, dir string) {
 		}
 	}
 
+	doUn := func(op unOp, a *big.Int) {
+		a0 := new(big.Int).Set(a)
+		var res *big.Int
+		ok := catch(func() { res = op.run(a) })
+		line := fmt.Sprintf("num %s %s", op.name, a0)
+		o.Emit(line, obsInt(ok, res), a0.Sign() != 0)
+		o.Count("op." + op.name)
+		if a.Cmp(a0) != 0 {
+			o.Fail(op.name+":operand-mutated", line)
+		}
+		x, rule := op.exact(a0)
+		want := applyRule(x, rule)
+		over := op.bound == "bigint" && want.BitLen() > 1024
+		key := op.name + ":"
+		if a0.Sign() < 0 {
+			key += "neg-operand"
+		} else {
+			key += "nonneg"
+		}
+		if !x.IsInt() {
+			key += "-inexact"
+		} else {
+			key += "-exact"
+		}
+		switch {
+		case over && ok:
+			o.Fail(key+"-overflow-not-rejected", line)
+		case !over && !ok:
+			o.Fail(key+"-spurious-panic", line)
+		case !over && ok && res.Cmp(want) != 0:
+			o.Fail(key, fmt.Sprintf("%s got %s want(%s) %s", line, res, rule, want))
+		}
+		if op.mut != nil {
+			var mres *big.Int
+			mok := catch(func() { mres = op.mut(new(big.Int).Set(a0)) })
+			if mok != ok || (ok && mres.Cmp(res) != 0) {
+				o.Fail(op.name+":mut-differs", line)
+			}
+		}
+	}
+
+	// aliasing / mutation discipline on live objects (numalias.go): one systematic sweep over
+	// method x operand class, then random cases and alias chains interleaved with the value cases
+	al := newAliasEng(g, o, bops, doBin)
+	al.uops, al.doUn = map[string]unOp{}, doUn
+	for _, op := range uops {
+		al.uops[op.name] = op
+	}
+	al.dops, al.doDec = newDecRunner(o)
+	cops := chainOps()
+	al.sweep()
 	for i := 0; i < n; i++ {
-		switch k := g.Intn(100); {
+		switch k := g.Intn(114); {
+		case k >= 107:
+			al.chain(cops)
+		case k >= 100:
+			al.random()
 		case k < 62: // binary op, stratified operands
 			op := bops[g.Intn(len(bops))]
 			a := g.genRaw(maxBits, o, "a")
@@ -411,44 +467,7 @@ func runNum(seed int64, n int, dir string) {
 			if op.name == "fromDec" && a.BitLen() > 315 {
 				a = g.genRaw(315, o, "a")
 			}
-			a0 := new(big.Int).Set(a)
-			var res *big.Int
-			ok := catch(func() { res = op.run(a) })
-			line := fmt.Sprintf("num %s %s", op.name, a0)
-			o.Emit(line, obsInt(ok, res), a0.Sign() != 0)
-			o.Count("op." + op.name)
-			if a.Cmp(a0) != 0 {
-				o.Fail(op.name+":operand-mutated", line)
-			}
-			x, rule := op.exact(a0)
-			want := applyRule(x, rule)
-			over := op.bound == "bigint" && want.BitLen() > 1024
-			key := op.name + ":"
-			if a0.Sign() < 0 {
-				key += "neg-operand"
-			} else {
-				key += "nonneg"
-			}
-			if !x.IsInt() {
-				key += "-inexact"
-			} else {
-				key += "-exact"
-			}
-			switch {
-			case over && ok:
-				o.Fail(key+"-overflow-not-rejected", line)
-			case !over && !ok:
-				o.Fail(key+"-spurious-panic", line)
-			case !over && ok && res.Cmp(want) != 0:
-				o.Fail(key, fmt.Sprintf("%s got %s want(%s) %s", line, res, rule, want))
-			}
-			if op.mut != nil {
-				var mres *big.Int
-				mok := catch(func() { mres = op.mut(new(big.Int).Set(a0)) })
-				if mok != ok || (ok && mres.Cmp(res) != 0) {
-					o.Fail(op.name+":mut-differs", line)
-				}
-			}
+			doUn(op, a)
 		case k < 96: // encodings
 			a := g.genRaw(maxBits, o, "a")
 			x := bd(a)
@@ -554,17 +573,19 @@ func runNum(seed int64, n int, dir string) {
 	o.Close(nil)
 }
 
-// runDecOps: the 18-decimal type (cosmossdk.io/math LegacyDec, aliased osmomath.Dec).
-func runDecOps(g *Gen, o *Out, n int) {
-	upper := new(big.Int).Sub(new(big.Int).Mul(pow2(256), p18), big.NewInt(1))
-	inRange := func(v *big.Int) bool { return new(big.Int).Abs(v).Cmp(upper) <= 0 }
-	type dop struct {
-		name  string
-		bInt  bool
-		run   func(a, b *big.Int) *big.Int
-		exact func(a, b *big.Int) (*big.Rat, string)
-		check bool
-	}
+// the 18-decimal type (cosmossdk.io/math LegacyDec, aliased osmomath.Dec)
+type decOp struct {
+	name  string
+	run   func(a, b *big.Int) *big.Int
+	exact func(a, b *big.Int) (*big.Rat, string)
+}
+
+var decUpper = new(big.Int).Sub(new(big.Int).Mul(pow2(256), pow10(18)), big.NewInt(1))
+
+func decInRange(v *big.Int) bool { return new(big.Int).Abs(v).Cmp(decUpper) <= 0 }
+
+// newDecRunner: the table of LegacyDec methods and the value oracle + model line of one operand pair.
+func newDecRunner(o *Out) (map[string]decOp, func(op decOp, a, b *big.Int)) {
 	q := func(scale *big.Int) func(a, b *big.Int) *big.Rat {
 		return func(a, b *big.Int) *big.Rat {
 			if b.Sign() == 0 {
@@ -573,34 +594,94 @@ func runDecOps(g *Gen, o *Out, n int) {
 			return ratOf(new(big.Int).Mul(a, scale), b)
 		}
 	}
-	ops := []dop{
-		{"d.add", false, func(a, b *big.Int) *big.Int { return sd(a).Add(sd(b)).BigInt() }, func(a, b *big.Int) (*big.Rat, string) {
+	ops := []decOp{
+		{"d.add", func(a, b *big.Int) *big.Int { return sd(a).Add(sd(b)).BigInt() }, func(a, b *big.Int) (*big.Rat, string) {
 			return new(big.Rat).SetInt(new(big.Int).Add(a, b)), "exact"
-		}, true},
-		{"d.sub", false, func(a, b *big.Int) *big.Int { return sd(a).Sub(sd(b)).BigInt() }, func(a, b *big.Int) (*big.Rat, string) {
+		}},
+		{"d.sub", func(a, b *big.Int) *big.Int { return sd(a).Sub(sd(b)).BigInt() }, func(a, b *big.Int) (*big.Rat, string) {
 			return new(big.Rat).SetInt(new(big.Int).Sub(a, b)), "exact"
-		}, true},
-		{"d.mul", false, func(a, b *big.Int) *big.Int { return sd(a).Mul(sd(b)).BigInt() }, func(a, b *big.Int) (*big.Rat, string) {
+		}},
+		{"d.mul", func(a, b *big.Int) *big.Int { return sd(a).Mul(sd(b)).BigInt() }, func(a, b *big.Int) (*big.Rat, string) {
 			return ratOf(new(big.Int).Mul(a, b), p18), "halfeven"
-		}, true},
-		{"d.mulTruncate", false, func(a, b *big.Int) *big.Int { return sd(a).MulTruncate(sd(b)).BigInt() }, func(a, b *big.Int) (*big.Rat, string) {
+		}},
+		{"d.mulTruncate", func(a, b *big.Int) *big.Int { return sd(a).MulTruncate(sd(b)).BigInt() }, func(a, b *big.Int) (*big.Rat, string) {
 			return ratOf(new(big.Int).Mul(a, b), p18), "trunc"
-		}, true},
-		{"d.mulRoundUp", false, func(a, b *big.Int) *big.Int { return sd(a).MulRoundUp(sd(b)).BigInt() }, func(a, b *big.Int) (*big.Rat, string) {
+		}},
+		{"d.mulRoundUp", func(a, b *big.Int) *big.Int { return sd(a).MulRoundUp(sd(b)).BigInt() }, func(a, b *big.Int) (*big.Rat, string) {
 			return ratOf(new(big.Int).Mul(a, b), p18), "ceil"
-		}, true},
-		{"d.quo", false, func(a, b *big.Int) *big.Int { return sd(a).Quo(sd(b)).BigInt() }, func(a, b *big.Int) (*big.Rat, string) {
+		}},
+		{"d.quo", func(a, b *big.Int) *big.Int { return sd(a).Quo(sd(b)).BigInt() }, func(a, b *big.Int) (*big.Rat, string) {
 			return q(p18)(a, b), "halfeven36of18"
-		}, true},
-		{"d.quoTruncate", false, func(a, b *big.Int) *big.Int { return sd(a).QuoTruncate(sd(b)).BigInt() }, func(a, b *big.Int) (*big.Rat, string) {
+		}},
+		{"d.quoTruncate", func(a, b *big.Int) *big.Int { return sd(a).QuoTruncate(sd(b)).BigInt() }, func(a, b *big.Int) (*big.Rat, string) {
 			return q(p18)(a, b), "trunc"
-		}, true},
-		{"d.quoRoundUp", false, func(a, b *big.Int) *big.Int { return sd(a).QuoRoundUp(sd(b)).BigInt() }, func(a, b *big.Int) (*big.Rat, string) {
+		}},
+		{"d.quoRoundUp", func(a, b *big.Int) *big.Int { return sd(a).QuoRoundUp(sd(b)).BigInt() }, func(a, b *big.Int) (*big.Rat, string) {
 			return q(p18)(a, b), "ceil"
-		}, true},
+		}},
 	}
+	tbl := map[string]decOp{}
+	for _, op := range ops {
+		tbl[op.name] = op
+	}
+	do := func(op decOp, a, b *big.Int) {
+		if !decInRange(a) || !decInRange(b) {
+			return
+		}
+		a0, b0 := new(big.Int).Set(a), new(big.Int).Set(b)
+		var res *big.Int
+		ok := catch(func() { res = op.run(a, b) })
+		line := fmt.Sprintf("num %s %s %s", op.name, a0, b0)
+		o.Emit(line, obsInt(ok, res), a0.Sign() != 0 && b0.Sign() != 0)
+		o.Count("op." + op.name)
+		x, rule := op.exact(a0, b0)
+		if x == nil {
+			if ok {
+				o.Fail(op.name+":div-by-zero-returned", line)
+			}
+			return
+		}
+		var want *big.Int
+		if rule == "halfeven36of18" {
+			t := ratTrunc(new(big.Rat).Mul(x, new(big.Rat).SetInt(p18)))
+			want = ratHalfEven(ratOf(t, p18))
+		} else {
+			want = applyRule(x, rule)
+		}
+		key := op.name + ":"
+		if a0.Sign() < 0 || b0.Sign() < 0 {
+			key += "neg-operand"
+		} else {
+			key += "nonneg"
+		}
+		if !x.IsInt() {
+			key += "-inexact"
+		} else {
+			key += "-exact"
+		}
+		over := !decInRange(want)
+		switch {
+		case over && ok:
+			o.Fail(key+"-overflow-not-rejected", line)
+		case !over && !ok:
+			o.Fail(key+"-spurious-panic", line)
+		case !over && ok && res.Cmp(want) != 0:
+			o.Fail(key, fmt.Sprintf("%s got %s want(%s) %s", line, res, rule, want))
+		}
+	}
+	return tbl, do
+}
+
+// runDecOps: stratified and tie-directed operand pairs for every LegacyDec method of the table.
+func runDecOps(g *Gen, o *Out, n int) {
+	tbl, do := newDecRunner(o)
+	var names []string
+	for k := range tbl {
+		names = append(names, k)
+	}
+	sort.Strings(names)
 	for i := 0; i < n; i++ {
-		op := ops[g.Intn(len(ops))]
+		op := tbl[names[g.Intn(len(names))]]
 		var a, b *big.Int
 		if g.Intn(3) == 0 {
 			m := big.NewInt(int64(2 + g.Intn(9)))
@@ -621,48 +702,6 @@ func runDecOps(g *Gen, o *Out, n int) {
 				a = g.genRaw(370-b.BitLen()+1, o, "da")
 			}
 		}
-		if !inRange(a) || !inRange(b) {
-			continue
-		}
-		a0, b0 := new(big.Int).Set(a), new(big.Int).Set(b)
-		var res *big.Int
-		ok := catch(func() { res = op.run(a, b) })
-		line := fmt.Sprintf("num %s %s %s", op.name, a0, b0)
-		o.Emit(line, obsInt(ok, res), a0.Sign() != 0 && b0.Sign() != 0)
-		o.Count("op." + op.name)
-		x, rule := op.exact(a0, b0)
-		if x == nil {
-			if ok {
-				o.Fail(op.name+":div-by-zero-returned", line)
-			}
-			continue
-		}
-		var want *big.Int
-		if rule == "halfeven36of18" {
-			t := ratTrunc(new(big.Rat).Mul(x, new(big.Rat).SetInt(p18)))
-			want = ratHalfEven(ratOf(t, p18))
-		} else {
-			want = applyRule(x, rule)
-		}
-		key := op.name + ":"
-		if a0.Sign() < 0 || b0.Sign() < 0 {
-			key += "neg-operand"
-		} else {
-			key += "nonneg"
-		}
-		if !x.IsInt() {
-			key += "-inexact"
-		} else {
-			key += "-exact"
-		}
-		over := !inRange(want)
-		switch {
-		case over && ok:
-			o.Fail(key+"-overflow-not-rejected", line)
-		case !over && !ok:
-			o.Fail(key+"-spurious-panic", line)
-		case !over && ok && res.Cmp(want) != 0:
-			o.Fail(key, fmt.Sprintf("%s got %s want(%s) %s", line, res, rule, want))
-		}
+		do(op, a, b)
 	}
 }
